@@ -674,7 +674,16 @@ struct Runner
   {
     Case c;
     c.kind = "chain(" + cases[i].kind + "," + cases[j].kind + ")";
-    c.norm.reset(new ChainedBinNormalisation(cases[i].norm, cases[j].norm));
+    ++g_checks;
+    try
+      {
+        if (cases[i].norm && cases[j].norm)
+          c.norm.reset(new ChainedBinNormalisation(cases[i].norm, cases[j].norm));
+      }
+    catch (...)
+      {
+        oracle_fail("ChainedBinNormalisation refused members of which at most one has a calibration factor: " + c.kind);
+      }
     c.members = { i, j };
     c.has_small_eff = cases[i].has_small_eff || cases[j].has_small_eff;
     c.positive_inputs = cases[i].positive_inputs && cases[j].positive_inputs;
@@ -724,6 +733,8 @@ struct Runner
   void run_case(int k)
   {
     Case& c = cases[k];
+    if (!c.norm)
+      return;
     bool ok = false;
     try
       {
@@ -1071,33 +1082,14 @@ main(int argc, char** argv)
           R.add_chain(t, R.add_chain(tab0, f1));
           for (std::size_t k = 0; k < R.cases.size(); ++k)
             R.run_case(static_cast<int>(k));
-          // attenuation class refuses TOF data
-          {
-            shared_ptr<VoxelsOnCartesianGrid<float>> mu = vh::make_image(*pdi, 1.F, 5, -1);
-            mu->fill(0.1F);
-            shared_ptr<ForwardProjectorByBin> fwd(new ForwardProjectorByBinUsingProjMatrixByBin(
-                shared_ptr<ProjMatrixByBin>(new ProjMatrixByBinUsingRayTracing)));
-            shared_ptr<const DiscretisedDensity<3, float>> mu_c(mu);
-            BinNormalisationFromAttenuationImage a(mu_c, fwd);
-            bool refused = false;
-            try
-              {
-                refused = a.set_up(R.g.exam, pdi) != Succeeded::yes;
-              }
-            catch (...)
-              {
-                refused = true;
-              }
-            ++g_checks;
-            if (!refused)
-              oracle_fail("BinNormalisationFromAttenuationImage::set_up accepted TOF data");
-          }
           // set_up decisions
           fpd_setup_case(R, nontof, true, true);
           fpd_setup_case(R, pdi, true, true);
           {
             shared_ptr<ProjDataInfo> other = vh::make_pdi(sc, 1, Rr - 1, N / 2, nt + 1 <= N / 2 - 1 ? nt + 1 : nt - 1, false, 0);
             fpd_setup_case(R, other, true, false); // different tangential size
+            if (nt - 1 >= 1)
+              fpd_setup_case(R, vh::make_pdi(sc, 1, Rr - 1, N / 2, nt - 1, false, 0), true, false); // smaller tangential size
           }
         }
       // ------------------------------------------------------------------ D: non-TOF, span 3, view mashing; F: factors with more segments
